@@ -44,6 +44,7 @@ type Engine struct {
 	globalConstInit map[*types.Var]string
 	pkgVars   []*types.Var
 	immutableGlobals map[*types.Var]bool
+	mutableFields    map[string]bool // heap keys (Type.field) assigned somewhere in the package (field census)
 	ufuns     map[string]*UFun
 	trackTouched bool
 	slabTypes map[string]bool
@@ -76,6 +77,19 @@ func loadEngine(repo string) (*Engine, error) {
 	eng.indexFuncs()
 	eng.indexTypes()
 	eng.indexGlobals()
+	eng.indexFieldWrites()
+	if dumpFields {
+		for _, t := range eng.namedTypes {
+			if st, ok := t.Underlying().(*types.Struct); ok {
+				for i := 0; i < st.NumFields(); i++ {
+					k := t.(*types.Named).Obj().Name() + "." + st.Field(i).Name()
+					if !eng.mutableFields[k] {
+						fmt.Println("immutable:", k)
+					}
+				}
+			}
+		}
+	}
 	if err := eng.loadUFuns(); err != nil {
 		return nil, err
 	}
@@ -498,4 +512,166 @@ func (e *Engine) findMeasures() {
 		}
 	}
 	sort.Strings(e.measures)
+}
+
+// indexFieldWrites is a census of field writes in the package: a heap key Type.field that is never the target of an
+// assignment, ++/--, address-of, array slicing, pointer-receiver method call on a struct-valued field, or whole-struct store
+// keeps its value in every already allocated object (composite literals only initialise fresh objects).
+func (e *Engine) indexFieldWrites() {
+	e.mutableFields = map[string]bool{}
+	owner := map[*types.Var]*types.Named{}
+	for _, t := range e.namedTypes {
+		nt := t.(*types.Named)
+		if st, ok := nt.Underlying().(*types.Struct); ok {
+			for i := 0; i < st.NumFields(); i++ {
+				owner[st.Field(i)] = nt
+			}
+		}
+	}
+	markAll := func(t types.Type) {
+		if p, ok := t.Underlying().(*types.Pointer); ok {
+			t = p.Elem()
+		}
+		nt, ok := t.(*types.Named)
+		if !ok {
+			return
+		}
+		if st, ok := nt.Underlying().(*types.Struct); ok {
+			for i := 0; i < st.NumFields(); i++ {
+				e.mutableFields[nt.Obj().Name()+"."+st.Field(i).Name()] = true
+			}
+		}
+	}
+	var markChain func(x ast.Expr)
+	markChain = func(x ast.Expr) {
+		for {
+			switch y := x.(type) {
+			case *ast.ParenExpr:
+				x = y.X
+				continue
+			case *ast.IndexExpr:
+				// slices and maps are values in the model (contents included), so an element write is a write of the field
+				x = y.X
+				continue
+			case *ast.SliceExpr:
+				x = y.X
+				continue
+			case *ast.StarExpr:
+				if t := e.info.TypeOf(y); t != nil {
+					markAll(t)
+				}
+				return
+			case *ast.SelectorExpr:
+				if sel, ok := e.info.Selections[y]; ok && sel.Kind() == types.FieldVal {
+					if fv, ok := sel.Obj().(*types.Var); ok {
+						if nt := owner[fv]; nt != nil {
+							e.mutableFields[nt.Obj().Name()+"."+fv.Name()] = true
+						}
+						// promoted through embedded fields: the embedded field itself is a value inside the object
+						if len(sel.Index()) > 1 {
+							t := sel.Recv()
+							for _, ix := range sel.Index()[:len(sel.Index())-1] {
+								if p, ok := t.Underlying().(*types.Pointer); ok {
+									t = p.Elem()
+								}
+								if st, ok := t.Underlying().(*types.Struct); ok {
+									f := st.Field(ix)
+									if nt := owner[f]; nt != nil {
+										e.mutableFields[nt.Obj().Name()+"."+f.Name()] = true
+									}
+									t = f.Type()
+								}
+							}
+						}
+					}
+					// a write to x.f.g also changes the value of field f when f is a struct value (not through a pointer)
+					if t := e.info.TypeOf(y.X); t != nil {
+						if _, isPtr := t.Underlying().(*types.Pointer); isPtr {
+							return
+						}
+					}
+					x = y.X
+					continue
+				}
+				return
+			}
+			return
+		}
+	}
+	for _, f := range e.pkg.Syntax {
+		ast.Inspect(f, func(n ast.Node) bool {
+			switch y := n.(type) {
+			case *ast.AssignStmt:
+				for _, l := range y.Lhs {
+					if y.Tok == token.DEFINE {
+						continue
+					}
+					markChain(l)
+					if t := e.info.TypeOf(l); t != nil {
+						if _, isSt := t.Underlying().(*types.Struct); isSt {
+							if _, isSel := l.(*ast.SelectorExpr); !isSel {
+								if _, isId := l.(*ast.Ident); !isId {
+									markAll(t)
+								}
+							}
+						}
+					}
+				}
+			case *ast.IncDecStmt:
+				markChain(y.X)
+			case *ast.RangeStmt:
+				if y.Tok == token.ASSIGN {
+					if y.Key != nil {
+						markChain(y.Key)
+					}
+					if y.Value != nil {
+						markChain(y.Value)
+					}
+				}
+			case *ast.UnaryExpr:
+				if y.Op == token.AND {
+					if _, isLit := y.X.(*ast.CompositeLit); !isLit {
+						markChain(y.X)
+						if t := e.info.TypeOf(y.X); t != nil {
+							if _, isSt := t.Underlying().(*types.Struct); isSt {
+								markAll(t)
+							}
+						}
+					}
+				}
+			case *ast.SliceExpr:
+				if t := e.info.TypeOf(y.X); t != nil {
+					if _, isArr := t.Underlying().(*types.Array); isArr {
+						markChain(y.X)
+					}
+				}
+			case *ast.CallExpr:
+				// a slice or map handed to any call (delete, copy, sort, encoders, ...) may have its contents changed
+				for _, a := range y.Args {
+					if t := e.info.TypeOf(a); t != nil {
+						switch t.Underlying().(type) {
+						case *types.Slice, *types.Map:
+							markChain(a)
+						}
+					}
+				}
+				if se, ok := y.Fun.(*ast.SelectorExpr); ok {
+					if sel, ok := e.info.Selections[se]; ok && sel.Kind() == types.MethodVal {
+						if fn, ok := sel.Obj().(*types.Func); ok {
+							if sig, ok := fn.Type().(*types.Signature); ok && sig.Recv() != nil {
+								if _, ptrRecv := sig.Recv().Type().(*types.Pointer); ptrRecv {
+									if t := e.info.TypeOf(se.X); t != nil {
+										if _, isPtr := t.Underlying().(*types.Pointer); !isPtr {
+											markChain(se.X) // implicit &x.f
+										}
+									}
+								}
+							}
+						}
+					}
+				}
+			}
+			return true
+		})
+	}
 }
